@@ -24,6 +24,7 @@ class GenOpts(object):
         self.allow_float = True
         self.allow_ext = True
         self.allow_bytes = True
+        self.nonfixed_bytes = True    # bytes<>, <N>, <...>, <@n> (only bytes[N] when False)
         self.allow_unset = True
         self.allow_const_refs = True
         self.min_decls = 1
@@ -172,7 +173,8 @@ class _Builder(object):
             last = (i == n - 1)
             pool = kinds_pool + ([GREEDY] * 3 if (last and self.o.allow_greedy) else [])
             kind = self.draw(st.sampled_from(pool))
-            as_bytes = (kind in ir.ARRAY_KINDS and self.o.allow_bytes and self.draw(st.integers(0, 4)) == 0)
+            as_bytes = (kind in ir.ARRAY_KINDS and self.o.allow_bytes and self.draw(st.integers(0, 4)) == 0 and
+                        (self.o.nonfixed_bytes or kind == FIXARR))
             if kind == PLAIN:
                 t = self.pick_type(UNLIMITED if (last and self.o.allow_greedy) else DYNAMIC)
                 members.append(Member(mn, t))
